@@ -267,7 +267,128 @@ def fam_threads(E, real=False, max_switches=10):
                         ('thread %d event %s at %r, expected %r', i, g[0], g[1], w[1]))
 
 
+def fam_nested_dates(E, real=False):
+    """an outer run(till=T) whose activities wait for dates, and a nested run(till=iT) started
+    from inside it whose activity waits for dates as well - all dates symbolic, so that the two
+    simulations wait for *equal* dates (and equal till dates) on some paths.  Each simulation
+    has its own clock and its own wake-ups."""
+    start = E.num('start', 0, 10, real=real)
+    T = start + E.num('dT', 0, 40, real=real)
+    d0 = E.num('d0', 0, 10, real=real)
+    u = E.num('u', 0, 30, real=real)
+    istart = E.num('istart', 0, 10, real=real)
+    iT = istart + E.num('idT', 0, 40, real=real)
+    v = E.num('v', 0, 30, real=real)
+    log = Log()
+
+    async def inner():
+        log('in', 'start')
+        await (time >= v)
+        log('in', 'woke')
+
+    async def root0():
+        await (time + d0)
+        before = now()
+        log(0, 'nesting')
+        usim.run(inner(), start=istart, till=iT)
+        log(0, 'nested-done', before)
+        await (time + 1)
+        log(0, 'after-nested')
+
+    async def root1():
+        await (time >= u)
+        log(1, 'woke')
+
+    out = simulate(root0(), root1(), start=start, till=T, log=log, probe=Probe(check_clock=False))
+    E.prove(sees_no_simulation(), 'no-simulation-visible-after-run')
+    bad = classify_run_exception(out.exc, allowed=())
+    E.prove(bad is None, 'run-ends-normally', bad)
+    if out.exc is not None:
+        return
+    for ev in log.events:
+        if ev[0] != 'in':
+            E.prove(LE(ev[2], T), 'till-reached-ends-the-run', ('%r at %r, till %r', ev[:2], ev[2], T))
+    # outer waiter: exactly at max(u, start) when that is before till
+    want1 = MAX(u, start)
+    w1 = log.first(1, 'woke')
+    if LT(want1, T):
+        E.prove(w1 is not None and EQ(w1[2], want1), 'outer-wait-resumes-at-its-date',
+                ('time >= %r from %r: %r', u, start, w1))
+    elif GT(want1, T):
+        E.prove(w1 is None, 'till-reached-ends-the-run')
+    ne = log.first(0, 'nesting')
+    if ne is None:
+        return
+    E.reach('nested')
+    nd = log.first(0, 'nested-done')
+    if not E.prove(nd is not None, 'nested-run-returns'):
+        return
+    E.prove(EQ(nd[2], start + d0) and EQ(nd[3], nd[2]), 'outer-clock-unchanged-by-nested-run')
+    ins, inw = log.first('in', 'start'), log.first('in', 'woke')
+    if LT(istart, iT):
+        E.prove(ins is not None and EQ(ins[2], istart), 'nested-simulation-has-its-own-clock')
+    wantv = MAX(v, istart)
+    if LT(wantv, iT):
+        E.prove(inw is not None and EQ(inw[2], wantv), 'nested-wait-resumes-at-its-date',
+                ('nested time >= %r from %r, till %r: %r', v, istart, iT, inw))
+    elif GT(wantv, iT):
+        E.prove(inw is None, 'nested-till-ends-the-nested-run')
+    for ev in log.events:
+        if ev[0] == 'in':
+            E.prove(LE(ev[2], iT), 'nested-till-ends-the-nested-run')
+    E.reach_if(EQ(iT, T), 'equal-till-dates')
+    E.reach_if(EQ(v, u), 'equal-wait-dates')
+    an = log.first(0, 'after-nested')
+    if LT(start + d0 + 1, T):
+        E.prove(an is not None and EQ(an[2], start + d0 + 1), 'outer-simulation-continues-undisturbed')
+
+
+def fam_float_till(E):
+    """IEEE double dates (z3 floating point): run(start=s, till=t) stops exactly when the clock
+    reads t - an activity that is torn down at the end sees time.now == t, nothing runs later,
+    and a sleeper due strictly before t still runs at its exact date"""
+    s0 = E.float('s', 0.0, 50.0)
+    t = E.float('t', 0.0, 100.0)
+    d = E.float('d', 0.0, 100.0)
+    E.assume(GE(t, s0), 'till >= start')
+    log = Log()
+
+    async def idler():
+        try:
+            await eternity
+        finally:
+            log('idle', 'stopped', STATE.loop.time)
+
+    async def sleeper():
+        await (time + d)
+        log('sl', 'woke')
+
+    out = simulate(idler(), sleeper(), start=s0, till=t, log=log, probe=Probe(check_clock=False),
+                   wrap_start=False)
+    bad = classify_run_exception(out.exc, allowed=())
+    E.prove(bad is None, 'run-ends-normally', bad)
+    st = log.first('idle', 'stopped')
+    if st is not None:
+        E.reach('torn-down-at-till')
+        E.prove(EQ(st[3], t), 'run-stops-exactly-at-till',
+                ('run(start=%r, till=%r) stopped at %r', s0, t, st[3]))
+    wk = log.first('sl', 'woke')
+    if wk is not None:
+        E.prove(LE(wk[2], t), 'nothing-runs-later-than-till')
+        E.prove(EQ(wk[2], s0 + d), 'sleeper-wakes-at-its-date')
+    elif LT(s0 + d, t):
+        E.fail('sleeper-due-before-till-runs')
+
+
 FAMILIES = [
+    Family('nested_dates', fam_nested_dates, quick=dict(), thorough=dict(real=True),
+           reach=['nested', 'equal-till-dates', 'equal-wait-dates'],
+           bounds='outer run(till=T) with a date waiter, nested run(till=iT) with a date waiter; '
+                  'all dates symbolic in [0,50] (equal dates in both simulations included)'),
+    Family('float_till', fam_float_till, quick=dict(), thorough=dict(),
+           reach=['torn-down-at-till'],
+           bounds='run(start=s, till=t) with IEEE double s in [0,50], t in [s,100], one sleeper '
+                  'with a double delay'),
     Family('sequence', fam_sequence,
            quick=dict(nruns=2, kinds=[SUCCESS, RAISES, RETURNS, NESTED, WAITERS, TILL]),
            thorough=dict(nruns=2, kinds=[SUCCESS, RAISES, RETURNS, NESTED, WAITERS, TILL]),
